@@ -133,3 +133,19 @@ package iop
 //@ ensures[regular] result == (*p.polynomial.coefficients)[(i + rho * p.shift) % n]
 //@ modifies nothing
 //@ end
+
+// checkSize (used by the ratio / grand-product builders on the lists of numerators and denominators): total - every
+// polynomial it looks at is an element of the list it is looking into (the inner index stays below the length of
+// pols[i], not of pols) - provided there is a first list with a first polynomial, which it reads unconditionally.
+// The contents of the lists (slices of slices of pointers) are not modelled beyond "the same cell read twice holds
+// the same value"; that a nil result means that all sizes agree is not stated.
+//@ func checkSize
+//@ option opaque-calls
+//@ option nomerge
+//@ requires len(pols) >= 1 && len(pols[0]) >= 1
+//@ loop 0
+//@ + invariant[outer] 0 <= i && i <= m && m == len(pols)
+//@ loop 1
+//@ + invariant[inner] 0 <= j
+//@ modifies nothing
+//@ end
